@@ -79,6 +79,7 @@ def handleWire (w : WSt) (ws : List String) : Option (WSt × String) :=
   | ["mon_cn", "pollwork", pk, wk, inp, wr] =>
     some (w, showViols (H2V.Spec.Verdict.unsolicitedPoll (pk == "1") (wk == "1") (inp == "1") (wr == "1")))
   | ["mon_cn", "pendreg", op, reg] => some (w, showViols (H2V.Spec.Verdict.pendingRegistered op (reg == "1")))
+  | ["mon_cn", "parkedpush", sst] => some (w, showViols (H2V.Spec.Verdict.parkedPush sst))
   | ["mon_cn", "afterend", op, r, sst] => some (w, showViols (H2V.Spec.Verdict.afterEnd op r sst))
   | ["mon_cn", "connresult", pc, r, rc] =>
     some (w, showViols (H2V.Spec.Verdict.connResult ((pc.splitOn ",").filterMap (·.toNat?)) r (rc.toNat?.getD 0)))
